@@ -13,14 +13,20 @@ def success_edges_of_reads(ctx, b):
     """True edges of switches on the bool payload of a checked (`?` / match) call that may READ and returns
     io::Result<bool> (a block read that succeeded)."""
     out = []
+    from core import result_edges
     for cs in b.calls:
         dl = cs.dest_local()
-        if dl is None or b.local_ty(dl) != 'std::result::Result<bool, std::io::Error>':
+        if dl is None:
             continue
-        if not (ctx.E.call_may(cs, 'READ')):
-            continue
-        for (te, fe) in ok_bool_edges(b, dl):
-            out.append((cs, te, fe))
+        if b.local_ty(dl) == 'std::result::Result<bool, std::io::Error>' and ctx.E.call_may(cs, 'READ'):
+            for (te, fe) in ok_bool_edges(b, dl):
+                out.append((cs, te, fe))
+        elif b.local_ty(dl) == 'std::result::Result<(), std::io::Error>' and cs.node is None and cs.name.endswith('read_exact'):
+            # the read primitive itself, matched in place: Ok(()) = a whole block was read
+            re_ = result_edges(b, dl)
+            for oe in re_['ok']:
+                for ee in re_['err'] or [None]:
+                    out.append((cs, oe, ee))
     return out
 
 
@@ -279,12 +285,12 @@ def fh1(ctx):
                     break
             defs = b.defs.get(hl, []) if hl is not None else []
             eqs = []
-            for (bi, c, te, fe, cs) in b.switches_on_call(lambda c: 'PartialEq' in c.name and c.name.endswith('::eq') and 'FileNumber' in c.name):
+            for (bi, c, te, fe, cs) in b.switches_on_call(lambda c: 'PartialEq' in c.name and (c.name.endswith('::eq') or c.name.endswith('::ne')) and 'FileNumber' in c.name):
                 back = set()
                 for a in cs.args:
                     back |= fl.backward(set(fl.op_nodes(a)), skip_mem=True)
                 if ('l', fp) in back:
-                    eqs.append(te)
+                    eqs.append(fe if cs.name.endswith('::ne') else te)
             bad = []
             okc = 0
             for (p, kind, data) in defs:
